@@ -217,9 +217,15 @@ example : ∃ s, run {} [.start, .tAcq, .tCheck, .kSet 0, .kAlive 0, .kTry 0, .t
 
 /-! ### join_or_die -/
 
-theorem joinLoop_own_of_lt (fuel now deadline interval dv : Nat) (tie : Bool) (hi : 0 < interval)
-    (hf : deadline + 1 ≤ now + fuel * interval) (hd : dv < deadline) (hn : now ≤ dv ∨ now < deadline) :
-    (joinLoop fuel now deadline interval (some dv) tie).1 = .own := by
+theorem fuel_enough (timeout interval : Nat) (hi : 0 < interval) :
+    timeout + interval ≤ 0 + (timeout + 2) * interval := by
+  have h1 : timeout ≤ timeout * interval := Nat.le_mul_of_pos_right _ hi
+  have h2 : (timeout + 2) * interval = timeout * interval + 2 * interval := Nat.add_mul _ _ _
+  omega
+
+theorem joinLoop_own_of_lt (fuel now deadline interval dv h : Nat) (tie : Bool) (hi : 0 < interval)
+    (hf : deadline + interval ≤ now + fuel * interval) (hn : now < deadline + interval) (hd : dv < deadline) :
+    (joinLoop fuel now deadline interval (some dv) h tie).1 = .own := by
   induction fuel generalizing now with
   | zero => simp at hf; omega
   | succ fuel ih =>
@@ -227,29 +233,22 @@ theorem joinLoop_own_of_lt (fuel now deadline interval dv : Nat) (tie : Bool) (h
     split
     · split
       · rfl
-      · rename_i hlt hnot
-        apply ih
-        · have : (fuel + 1) * interval = fuel * interval + interval := by rw [Nat.add_mul]; simp
-          omega
-        · omega
+      · have : (fuel + 1) * interval = fuel * interval + interval := by rw [Nat.add_mul]; simp
+        apply ih <;> omega
     · rename_i hge
       have : dv < now := by omega
       simp [this]
 
 /-- C12: a body that returns before its deadline is never reported as timed out, for every duration,
-    deadline, poll interval and tie-break. -/
-theorem c12_no_false_timeout (timeout interval dv : Nat) (tie : Bool) (hi : 0 < interval) (hd : dv < timeout) :
-    (joinOrDie timeout interval (some dv) tie).1 = .own := by
+    deadline, poll interval, handler duration and tie-break. -/
+theorem c12_no_false_timeout (timeout interval dv h : Nat) (tie : Bool) (hi : 0 < interval) (hd : dv < timeout) :
+    (joinOrDie timeout interval (some dv) h tie).1 = .own := by
   unfold joinOrDie
-  apply joinLoop_own_of_lt _ _ _ _ _ _ hi
-  · have : timeout + 2 ≤ (timeout + 2) * interval := Nat.le_mul_of_pos_right _ hi
-    omega
-  · exact hd
-  · left; omega
+  exact joinLoop_own_of_lt _ _ _ _ _ _ _ hi (fuel_enough _ _ hi) (by omega) hd
 
-theorem joinLoop_time_bound (fuel now deadline interval : Nat) (d : Option Nat) (tie : Bool) (hi : 0 < interval)
-    (hf : deadline + 1 ≤ now + fuel * interval) (hn : now < deadline + interval) :
-    (joinLoop fuel now deadline interval d tie).2 < deadline + interval := by
+theorem joinLoop_time_bound (fuel now deadline interval h : Nat) (d : Option Nat) (tie : Bool) (hi : 0 < interval)
+    (hf : deadline + interval ≤ now + fuel * interval) (hn : now < deadline + interval) :
+    (joinLoop fuel now deadline interval d h tie).2 < deadline + interval := by
   induction fuel generalizing now with
   | zero => simp at hf; simp [joinLoop]; omega
   | succ fuel ih =>
@@ -269,58 +268,53 @@ theorem joinLoop_time_bound (fuel now deadline interval : Nat) (d : Option Nat) 
       | some dv => simp only; split <;> simpa using hn
 
 /-- C12: the executor proceeds within one poll interval after the deadline, even if the body never returns -/
-theorem c12_bounded_delay (timeout interval : Nat) (d : Option Nat) (tie : Bool) (hi : 0 < interval) :
-    (joinOrDie timeout interval d tie).2 < timeout + interval := by
+theorem c12_bounded_delay (timeout interval h : Nat) (d : Option Nat) (tie : Bool) (hi : 0 < interval) :
+    (joinOrDie timeout interval d h tie).2 < timeout + interval := by
   unfold joinOrDie
-  apply joinLoop_time_bound _ _ _ _ _ _ hi
-  · have : timeout + 2 ≤ (timeout + 2) * interval := Nat.le_mul_of_pos_right _ hi
-    omega
-  · omega
+  exact joinLoop_time_bound _ _ _ _ _ _ _ hi (fuel_enough _ _ hi) (by omega)
 
-theorem joinLoop_never_returns (fuel now deadline interval : Nat) (tie : Bool) :
-    (joinLoop fuel now deadline interval none tie).1 = .timeout := by
+theorem joinLoop_never_returns (fuel now deadline interval h : Nat) (tie : Bool) :
+    (joinLoop fuel now deadline interval none h tie).1 = .timeout := by
   induction fuel generalizing now with
   | zero => rfl
   | succ fuel ih => simp only [joinLoop]; split <;> simp [ih]
 
 /-- a body that never returns is reported as a timeout -/
-theorem c12_hung_body_times_out (timeout interval : Nat) (tie : Bool) :
-    (joinOrDie timeout interval none tie).1 = .timeout := joinLoop_never_returns _ _ _ _ _
+theorem c12_hung_body_times_out (timeout interval h : Nat) (tie : Bool) :
+    (joinOrDie timeout interval none h tie).1 = .timeout := joinLoop_never_returns _ _ _ _ _ _
 
-theorem joinLoop_timeout_only_late (fuel now deadline interval dv : Nat) (tie : Bool)
-    (h : (joinLoop fuel now deadline interval (some dv) tie).1 = .timeout) (hf : deadline + 1 ≤ now + fuel * interval)
-    (hi : 0 < interval) : deadline ≤ dv ∨ dv < now := by
+theorem joinLoop_timeout_only_late (fuel now deadline interval dv h : Nat) (tie : Bool)
+    (hres : (joinLoop fuel now deadline interval (some dv) h tie).1 = .timeout)
+    (hf : deadline + interval ≤ now + fuel * interval) (hn : now < deadline + interval)
+    (hi : 0 < interval) : deadline ≤ dv := by
   induction fuel generalizing now with
   | zero => simp at hf; omega
   | succ fuel ih =>
-    simp only [joinLoop] at h
+    simp only [joinLoop] at hres
     have hmul : (fuel + 1) * interval = fuel * interval + interval := by rw [Nat.add_mul]; simp
-    split at h
-    · split at h
-      · cases h
-      · rename_i hlt hnot
-        have := ih (now + interval) h (by omega)
-        omega
-    · split at h
-      · cases h
+    split at hres
+    · split at hres
+      · cases hres
+      · exact ih (now + interval) hres (by omega) (by omega)
+    · split at hres
+      · cases hres
       · rename_i hnot; omega
 
 /-- C12: TIMEOUT is only ever reported for a body still running at its deadline -/
-theorem c12_timeout_only_if_still_running_at_deadline (timeout interval dv : Nat) (tie : Bool) (hi : 0 < interval)
-    (h : (joinOrDie timeout interval (some dv) tie).1 = .timeout) : timeout ≤ dv := by
-  unfold joinOrDie at h
-  have := joinLoop_timeout_only_late _ 0 timeout interval dv tie h (by
-    have : timeout + 2 ≤ (timeout + 2) * interval := Nat.le_mul_of_pos_right _ hi
-    omega) hi
-  omega
+theorem c12_timeout_only_if_still_running_at_deadline (timeout interval dv h : Nat) (tie : Bool) (hi : 0 < interval)
+    (hres : (joinOrDie timeout interval (some dv) h tie).1 = .timeout) : timeout ≤ dv := by
+  unfold joinOrDie at hres
+  exact joinLoop_timeout_only_late _ 0 timeout interval dv h tie hres (fuel_enough _ _ hi) (by omega) hi
 
 /-- the default timeout, DEFAULT_PHASE_TIMEOUT_S regenerated from the source, is the documented 180 s -/
 theorem c12_default_timeout : effectiveTimeoutS none = 180 ∧
     ∀ t, effectiveTimeoutS (some t) = t := ⟨by decide, fun _ => rfl⟩
 
-example : joinOrDie 10 3 (some 9) false = (.own, 9) := by decide
-example : joinOrDie 10 3 (some 11) false = (.own, 11) := by decide   -- returned before the poll noticed: keeps its result
-example : joinOrDie 10 3 (some 13) false = (.timeout, 12) := by decide
-example : joinOrDie 0 3 none false = (.timeout, 0) := by decide
+example : joinOrDie 10 3 (some 9) 0 false = (.own, 9) := by decide
+example : joinOrDie 10 3 (some 11) 0 false = (.own, 11) := by decide   -- returned before the poll noticed: keeps its result
+example : joinOrDie 10 3 (some 13) 0 false = (.timeout, 12) := by decide
+-- the body returned at 9 < 10 but its thread lives until 14: the outcome recorded at 9 is what counts
+example : joinOrDie 10 3 (some 9) 5 false = (.own, 12) := by decide
+example : joinOrDie 0 3 none 0 false = (.timeout, 0) := by decide
 
 end OpenHTF.Kill
